@@ -1,0 +1,61 @@
+//go:build verif
+
+package pdf
+
+import (
+	"bytes"
+	"errors"
+)
+
+// This file is compiled only with the build tag "verif".  It gives the
+// verification harness (/verif, property C01) access to the unexported object
+// scanner without building a PDF file around every case.  It contains no
+// parsing logic of its own.
+
+// VerifParseObjects parses data as a sequence of objects: a fresh scanner over
+// data followed by "]" is handed to the real ReadArray.
+func VerifParseObjects(data []byte) ([]Object, error) {
+	objs, _, err := VerifParseObjectsPos(data)
+	return objs, err
+}
+
+// VerifParseObjectsPos is like [VerifParseObjects] and also returns the
+// scanner position after the closing bracket.
+func VerifParseObjectsPos(data []byte) ([]Object, int64, error) {
+	buf := make([]byte, 0, len(data)+1)
+	buf = append(buf, data...)
+	buf = append(buf, ']')
+	getInt := func(obj Object) (Integer, error) {
+		if x, ok := obj.(Integer); ok {
+			return x, nil
+		}
+		return 0, &MalformedFileError{Err: errors.New("indirect length")}
+	}
+	s := newScanner(bytes.NewReader(buf), getInt, nil)
+	arr, err := s.ReadArray()
+	if err != nil {
+		return nil, s.CurrentPos(), err
+	}
+	res := make([]Object, len(arr))
+	for i, x := range arr {
+		res[i] = x
+	}
+	return res, s.CurrentPos(), nil
+}
+
+// VerifLimits holds the scanner's size limits.
+type VerifLimits struct {
+	StringBytes, NameBytes, ArrayLen, DictLen int
+}
+
+// VerifSetLimits replaces the scanner's size limits (package variables, which
+// the package's own tests also substitute) and returns the previous values.
+// Not safe for concurrent use with parsing.
+func VerifSetLimits(l VerifLimits) VerifLimits {
+	old := VerifLimits{maxStringBytes, maxNameBytes, maxArrayLen, maxDictLen}
+	maxStringBytes, maxNameBytes, maxArrayLen, maxDictLen = l.StringBytes, l.NameBytes, l.ArrayLen, l.DictLen
+	return old
+}
+
+// VerifNestDepth is the scanner's nesting limit (a constant).
+const VerifNestDepth = maxScannerNestDepth
